@@ -30,16 +30,18 @@ class InducedSet:
         "Line is not connected to a GFA instance\n"+
         "Line: {}".format(self))
     try:
-      return self._compute_induced_segments_set(())
+      return self._compute_induced_segments_set(set())
     except RecursionError as err:
       raise gfapy.RuntimeError(
         "Induced set cannot be computed\n"+
         "The nesting of the groups is too deep") from err
 
-  def _compute_induced_segments_set(self, visiting):
-    # visiting: the sets whose induced set is being computed
-    # (a set which is nested in itself contributes nothing further)
-    visiting = visiting + (self,)
+  def _compute_induced_segments_set(self, visited):
+    # visited: the sets whose induced set has been or is being computed;
+    # a set which is met again contributes nothing further (its elements are
+    # there already, or - for a set nested in itself - will be); without it,
+    # groups which list a subgroup several times take exponential time
+    visited.add(id(self))
     segments_set = list()
     for item in self.items:
       if isinstance(item, str):
@@ -63,9 +65,9 @@ class InducedSet:
           segments_set.append(elem.line)
       elif isinstance(item, gfapy.line.group.Unordered):
         self._check_induced_set_elem_connected(item)
-        if any(group is item for group in visiting):
+        if id(item) in visited:
           continue
-        subset = item._compute_induced_segments_set(visiting)
+        subset = item._compute_induced_segments_set(visited)
         for elem in subset:
           segments_set.append(elem)
       elif isinstance(item, gfapy.line.Unknown):
